@@ -20,10 +20,10 @@ WORKERS = {"quick": 8, "thorough": 16}
 RULE = (("cases = scripts s1;...;sn: (1) the full predecessor x successor matrix over %d supported statement kinds (every lexer "
         "flag is set by some predecessor: LIKE, CHECK, SEQUENCE, ALTER, <...> types, dialect tails) with one unsupported or ignored "
         "statement inserted at a seeded gap (thorough: every gap); (2) seeded random sequences of 2..8 groups whose ALTER/INDEX "
-        "followers are scattered after their head, unsupported statements from 9 families inserted at random gaps; (3) 2..5 "
+        "followers are scattered after their head, unsupported statements from %d families inserted at random gaps; (3) 2..5 "
         "regression-corpus scripts concatenated in random order. Non-trivial = the script has >= 2 supported groups; distinct = "
         "distinct script text."
-        " Added after seeded defects: the same table name produced twice with ALTER/INDEX in between, the very same statement text repeated, statements the lexer rejects (known finding unless anything but that exception happens), unterminated ignored lines, stray-semicolon statements.") % len(G.SUPPORTED))
+        " Added after seeded defects: the same table name produced twice with ALTER/INDEX in between, the very same statement text repeated, statements the lexer rejects (known finding unless anything but that exception happens), unterminated ignored lines, stray-semicolon statements, ALTER/INDEX statements after the later of two definitions of a name, statements commented out by a block comment whose closing line continues after '*/'.") % (len(G.SUPPORTED), len(G.UNSUPPORTED)))
 ASSUMPTIONS = ["every statement ends with ';' at the end of a line (the property's premise)",
                "corpus scripts are used as whole units; concatenations in which two scripts define the same table are skipped",
                "GO / USE / INSERT / GRANT / DELETE lines are the documented ignored-line family (skipped in both modes)"]
@@ -231,6 +231,14 @@ def run_shard(ctx):
             groups_tail = [[g1[0]]]                # CREATE t; ...; DROP t; CREATE t (same text as the first)
         else:
             groups_tail = []
+        # ... and ALTER / INDEX statements written after the later definition belong to that one
+        last = groups_tail[-1] if groups_tail else g2
+        if not last[0].startswith("DROP") and rng.random() < 0.6:
+            col = "x" if "(x int)" in last[0] else "a"
+            for q in range(rng.randint(1, 2)):
+                last.append(rng.choice(["ALTER TABLE %s ADD d%d int;" % (nm, q), "CREATE INDEX jx%d_%d ON %s (%s);" % (j, q, nm, col),
+                                        "ALTER TABLE %s ADD CONSTRAINT cq%d UNIQUE (%s);" % (nm, q, col)]))
+            ctx.obs["redefinition_with_later_followers"] += 1
         groups = [g1, g2] + groups_tail
         if rng.random() < 0.5:
             groups.append(G.gen_group(rng, rng.choice(kinds), 7))
